@@ -36,6 +36,9 @@ def skeleton_pdus(op, rid):
         for g in groups:
             vbs = [(n, values.representative(k).tlv) for n, k in zip((n1, n2, n3), g)]
             out.append(("3vb-" + "+".join(g), rb.build_pdu(rb.PDU_RESPONSE, rid, 0, 0, vbs)))
+    # binary REALs with mantissas of 8, 9, 12, 16 and 17 octets
+    for ml in (8, 9, 12, 16, 17):
+        out.append(("real-mantissa-%d" % ml, rb.build_pdu(rb.PDU_RESPONSE, rid, 0, 0, [(n1, rb.tlv(0x09, b"\x80\x00" + b"\x01" + b"\x00" * (ml - 1)))])))
     # relative OID names, error status, report, other pdu types
     rel = [rb.varbind(rb.enc_oid(n1), rb.enc_int(1)), rb.varbind(rb.tlv(0x0D, bytes([3])), rb.enc_int(2)), rb.varbind(rb.tlv(0x0D, bytes([1, 3, 6, 1, 2, 1, 2, 2, 1, 9])), rb.enc_octets(b"x"))]
     out.append(("relative-names", rb.build_pdu(rb.PDU_RESPONSE, rid, 0, 0, rel)))
